@@ -7,6 +7,7 @@
 (* is produced by folding the step operators of Stream; each step carries the  *)
 (* observables the specification computes (last.exp).  Array and raw items     *)
 (* are read in both ways (mode "a": vector / read(mem,n); mode "b": getView).  *)
+(* The complete stream (k = bytes) is also read with REUSED destinations.      *)
 (* Output: one ndjson record per item sequence: the write steps once, and the  *)
 (* continuation for every (k, mode).  PART/PARTS split the work over several   *)
 (* TLC processes.                                                              *)
@@ -31,11 +32,28 @@ ViaFor(it, mode) == IF it.t \in ArrTags THEN (IF mode = "a" THEN "vec" ELSE "vie
                     ELSE IF it.t = "raw" THEN (IF mode = "a" THEN "read" ELSE "view")
                     ELSE "typed"
 
-RECURSIVE Reads(_, _, _)
-Reads(st, mode, acc) ==
+\* destination policies.  "fresh": every read goes into a newly constructed object.
+\* "reuse": the harness' scratch object of the destination type is reused for every read of
+\* the history; the first read of a type finds it pre-populated with a value longer than
+\* anything in the universe, later reads find what the previous read of that type left
+\* (longer, shorter or equally long, depending on the item sequence).
+\* "short": every read finds its destination pre-populated with one (non-empty) element.
+UsedBefore(st, T, mode) == \E j \in 1..st.idx : DstType(st.items[j], ViaFor(st.items[j], mode)) = T
+DstFor(st, it, mode, pol) ==
+  LET T == DstType(it, ViaFor(it, mode)) IN
+  IF pol = "fresh" \/ T = "none" THEN [dst |-> "fresh", pre |-> 0]
+  ELSE IF T = "pod" THEN [dst |-> "reused", pre |-> 0]
+  ELSE IF pol = "short" THEN [dst |-> "prepop", pre |-> ShortPre(T)]
+  ELSE IF UsedBefore(st, T, mode) THEN [dst |-> "reused", pre |-> 0]
+  ELSE [dst |-> "prepop", pre |-> LongPre(T)]
+
+RECURSIVE Reads(_, _, _, _)
+Reads(st, mode, pol, acc) ==
   IF st.phase # "reading" \/ st.idx = Len(st.items) THEN [s |-> st, hs |-> acc]
-  ELSE LET r == ReadStep(st, ViaFor(st.items[st.idx + 1], mode)) IN
-       IF r.last.ok THEN Reads(r.s, mode, Append(acc, r.last))
+  ELSE LET it == st.items[st.idx + 1]
+           d  == DstFor(st, it, mode, pol)
+           r  == ReadStep(st, ViaFor(it, mode), d.dst, d.pre) IN
+       IF r.last.ok THEN Reads(r.s, mode, pol, Append(acc, r.last))
        ELSE [s |-> r.s, hs |-> Append(acc, r.last)]
 
 \* boundary probes from a reader that is not broken
@@ -49,9 +67,9 @@ Probes(st) ==
            p6 == ViewStep(p4.s, 0)                           \* empty view at the end: fits
        IN <<p1.last, p2.last>> \o p3 \o <<p4.last, p5.last, p6.last>>
 
-Cont(st, k, mode) ==
+Cont(st, k, mode, pol) ==
   LET o == OpenStep(st, k)
-      r == Reads(o.s, mode, <<o.last>>)
+      r == Reads(o.s, mode, pol, <<o.last>>)
   IN r.hs \o Probes(r.s)
 
 HasAlt(q) == \E j \in DOMAIN q : q[j].t \in ArrTags \cup {"raw"}
@@ -60,9 +78,12 @@ Case(i) ==
   LET q == ItemSeq(i)
       w == Writes(EmptyState, q, <<>>)
       modes == IF HasAlt(q) THEN <<"a", "b">> ELSE <<"a">>
+      nf == Len(modes) * (w.s.bytes + 1)          \* every truncation point, fresh destinations
   IN [w |-> w.hs,
-      runs |-> [x \in 1..(Len(modes) * (w.s.bytes + 1)) |->
-                  Cont(w.s, (x - 1) \div Len(modes), modes[((x - 1) % Len(modes)) + 1])]]
+      runs |-> [x \in 1..(nf + 2 * Len(modes)) |->   \* + the complete stream with reused / pre-populated destinations
+                  IF x <= nf THEN Cont(w.s, (x - 1) \div Len(modes), modes[((x - 1) % Len(modes)) + 1], "fresh")
+                  ELSE IF x <= nf + Len(modes) THEN Cont(w.s, w.s.bytes, modes[x - nf], "reuse")
+                  ELSE Cont(w.s, w.s.bytes, modes[x - nf - Len(modes)], "short")]]
 
 NSeqs == Pow(N, K)
 Mine  == (NSeqs - PART + PARTS) \div PARTS           \* how many i in 1..NSeqs with i = PART (mod PARTS)
